@@ -154,6 +154,8 @@ func (mp *MotionProcessor) stopConstantRecorder() {
 		return
 	}
 	mp.constantRecorder.StopRecording()
+	// the file is closed now: the next valid frame has to start a new one
+	mp.crFrames = 0
 }
 
 func (mp *MotionProcessor) processConstantRecorder(frame *cptvframe.Frame) {
